@@ -18,6 +18,8 @@ SCALAR_CXX = {'double': 'double', 'long double': 'long double'}
 
 class Lib(object):
     _inst = None
+    _built = {}
+    _count = {}
 
     @classmethod
     def get(cls, scratch):
@@ -28,12 +30,16 @@ class Lib(object):
     def __init__(self, scratch, extra=()):
         self.dir = os.path.join(scratch, 'lib' + ''.join(extra).replace('-', '_'))
         os.makedirs(self.dir, exist_ok=True)
-        self.objs = build.build_lib(self.dir, extra)
+        if self.dir not in Lib._built:          # one build per variant and process, however many replays construct it
+            Lib._built[self.dir] = build.build_lib(self.dir, extra)
+        self.objs = Lib._built[self.dir]
         self.extra = list(extra)
+        Lib._count[self.dir] = Lib._count.get(self.dir, 0)
         self.n = 0
 
     def run(self, src, stdin='', lang='c++', timeout=120, keep=None, env=None, wrapper=()):
-        self.n += 1
+        Lib._count[self.dir] = Lib._count.get(self.dir, 0) + 1
+        self.n = Lib._count[self.dir]
         ext = '.cpp' if lang == 'c++' else '.c'
         path = os.path.join(self.dir, 'drv%d%s' % (self.n, ext))
         exe = os.path.join(self.dir, 'drv%d' % self.n)
